@@ -113,6 +113,21 @@ def concurrent_stage(prop, wd, scns, verdict, cov, plans, label="conc"):
         sb = vlib.load_scheds(scheds)
         for rej in val["rejected"]:
             verdict.judge_rejected(rej, wd, sb, by_name, source=tag)
+        if any(s_.get("mm_trace") for s_ in scns):
+            # the memory manager's ops of the same runs, validated op by op against MQMemImpl
+            vm = vlib.validate_many(traces, wd, mm=True)
+            log("  [tlc] memory-manager traces against MQMemImpl: %d runs conform, %d do not (%d events, %d states)" %
+                (vm["accepted"], len(vm["rejected"]), vm["events"], vm["states"]))
+            cov.setdefault("mm_runs_conforming", 0)
+            cov.setdefault("mm_runs_drifting", 0)
+            cov.setdefault("mm_events", 0)
+            cov["mm_runs_conforming"] += vm["accepted"]
+            cov["mm_runs_drifting"] += len(vm["rejected"])
+            cov["mm_events"] += vm["events"]
+            cov["states"] += vm["states"]
+            cov["transitions"] += vm["generated"]
+            for rej in vm["rejected"][:3]:
+                verdict.mm_drift(rej, source=tag)
         cov["states"] += val["states"]
         cov["transitions"] += val["generated"]
         cov["traces_validated_against_impl"] += val["accepted"]
@@ -743,18 +758,46 @@ def check_C15(tier):
                          models=[impl_model_stage(["fut_"], nonotify_mutants=("fut_shared_1",))])
 
 
+def memimpl_configs():
+    def c(name, threads, churners, joiners, maxops, maxid, first=1, inner="TRUE", after="FALSE", expect=False,
+          thorough_only=False):
+        return {"name": name,
+                "constants": {"Threads": threads, "Churners": churners, "Joiners": joiners, "TH": 1, "FirstTok": first,
+                              "CheckInner": inner, "MaxOps": maxops, "MaxId": maxid, "AnnounceAfterLoad": after},
+                "invariants": ["Inv"], "expect": expect, "thorough_only": thorough_only, "workers": 8}
+    return [
+        c("ops3", "{1,2,3}", "{1}", "{}", 3, 4),
+        c("join", "{1,2,3}", "{1}", "{3}", 3, 5),
+        c("churn2", "{1,2,3}", "{1,2}", "{}", 3, 5, thorough_only=True),
+        c("mut_announce_after_load", "{1,2,3}", "{1}", "{}", 3, 4, after="TRUE", expect=True),
+        c("mut_skip_first_token", "{1,2,3}", "{1}", "{}", 3, 4, first=2, expect=True),
+        c("mut_no_inner_epoch_check", "{1,2,3}", "{1}", "{}", 3, 4, inner="FALSE", expect=True),
+    ]
+
+
 def check_C16(tier):
     scns = (sc.churn("C16", "bcast", caps=(2,), cycles=7 if tier == "quick" else 12) +
             sc.churn("C16l", "bcast", caps=(1,), cycles=13)[3:] + sc.two_churners("C16t") +
             sc.churn("C16", "mpmc", caps=(2,), cycles=7 if tier == "quick" else 12) +
             sc.churn("C16", "bcast", caps=(1,), cycles=7, fut=True))
+    for s_ in scns:
+        s_["mm_trace"] = True
     return generic_check("C16", tier, ["C16"], scns, plans_for(tier, dfs_cap_quick=1500, rnd_quick=400), RULE_CONC +
                          "; released blocks are poisoned and quarantined for the rest of the run, every shim operation "
                          "on a quarantined address is a uaf event, releasing a block twice a doublefree event; a crash "
                          "of the run process (poisoned pointer followed) is a violation; design level: the epoch "
                          "reclamation model MQMem is checked exhaustively (threshold 1-2) for NoUseAfterFree / "
-                         "NoDoubleRetire, seeded specification mutants must be refuted",
-                         models=[aux_model_stage("MQMem", mem_configs())])
+                         "NoDoubleRetire, seeded specification mutants must be refuted; MQMemImpl is src/memory.rs at "
+                         "the granularity of single memory operations, checked exhaustively (MQMemImplMC: handles that "
+                         "operate, swap the stream list, join and leave) for NoUseAfterFree / NoDoubleRetire / NoLostBatch "
+                         "with three seeded specification mutants, and every run of the real crate additionally yields "
+                         "the trace of its memory-manager ops (locks, epoch, tokens, signal word, stream-list pointer, "
+                         "retire / release / token allocation) which TLC validates op by op against MQMemImpl "
+                         "(MQMemImplTrace); a run that does not conform is reported as a note (the model's guarantee no "
+                         "longer transfers to the code), the alarm comes from the safety events: uaf, doublefree, "
+                         "earlyfree (release without an epoch change or with a stale live token), tokenless, heldfree "
+                         "(release of a stream list that a thread loaded in an operation it has not finished)",
+                         models=[aux_model_stage("MQMem", mem_configs()), aux_model_stage("MQMemImplMC", memimpl_configs())])
 
 
 def churn_stage(wd, v, cov, tier):
@@ -763,7 +806,7 @@ def churn_stage(wd, v, cov, tier):
     jobs = []
     for fam in ("bcast", "mpmc"):
         for fut in (False, True):
-            for extra in ([], ["--early-drop"], ["--traffic"]):
+            for extra in ([], ["--early-drop"], ["--traffic"], ["--no-receivers"]):
                 for cap in ((4,) if tier == "quick" else (1, 4, 9)):
                     tag = "churn_%s%s_c%d%s" % (fam, "F" if fut else "", cap, "".join(extra).replace("--", "_"))
                     out = os.path.join(wd, tag + ".api.ndjson")
